@@ -45,6 +45,11 @@ def circ_src(circuit, var="c"):
         lines.append(
             f"{var}.make_block({name!r}, {list(b.gates)!r}, {list(b.outputs)!r}, {list(b.inputs)!r})"
         )
+    from cirbo.core.circuit import gate as _G
+
+    if any(g.gate_type is not getattr(_G, g.gate_type.name, None) for g in circuit._gates.values()):
+        # the circuit went through deepcopy / pickle: its gate types are equal to, not identical with, the constants
+        lines.append(f"import copy\n{var} = copy.deepcopy({var})")
     return "\n".join(lines)
 
 
